@@ -243,9 +243,6 @@ func (b *behRun) collect(lk *lookup) {
 	authm := 0
 	if rec.authmCalled {
 		authm = nameOfID(rec.authm)
-		if authm == 0 {
-			authm = -1
-		}
 	}
 	raw := append([]byte{}, rec.raw...)
 	e := ev{"ev": "Result", "g": lk.slot, "name": name, "st": st, "dial": rec.dials > 0, "bytes": len(raw), "authm": authm,
@@ -267,10 +264,10 @@ func (b *behRun) collect(lk *lookup) {
 	}
 }
 
-func runBehaviour(steps []behStep, seed int64, pad int, timeout time.Duration) (out []ev, late bool) {
-	b := &behRun{s: newServer("nil", timeout, true, true, false), rng: rand.New(rand.NewSource(seed)), cur: map[int]*lookup{}, pad: pad}
+func runBehaviour(steps []behStep, seed int64, pad int, timeout time.Duration, debug bool) (out []ev, late bool) {
+	b := &behRun{s: newServer("nil", timeout, true, true, false, debug), rng: rand.New(rand.NewSource(seed)), cur: map[int]*lookup{}, pad: pad}
 	defer b.s.close()
-	b.emit(ev{"ev": "Reset", "pad": pad, "seed": seed})
+	b.emit(ev{"ev": "Reset", "pad": pad, "seed": seed, "debug": debug})
 	for i, st := range steps {
 		switch st.A {
 		case "Update":
@@ -328,8 +325,9 @@ func modeBeh(in, outPath string, seed int64, par int, timeout time.Duration) {
 			defer func() { <-sem }()
 			prng := rand.New(rand.NewSource(seed*7919 + int64(i)))
 			pad := pads[prng.Intn(len(pads))]
+			debug := prng.Intn(2) == 0 // every second behaviour runs with a DEBUG-level logger (-verbose)
 			for attempt := 0; attempt < 3; attempt++ {
-				evs, late := runBehaviour(behs[i], seed*1000003+int64(i)*17+int64(attempt), pad, timeout)
+				evs, late := runBehaviour(behs[i], seed*1000003+int64(i)*17+int64(attempt), pad, timeout, debug)
 				res[i] = behOut{evs, late}
 				if !late {
 					break
